@@ -2,6 +2,7 @@ mod findings;
 mod fx;
 mod prop;
 mod rng;
+mod shape;
 mod sup;
 mod vmutil;
 mod worker;
